@@ -8,6 +8,7 @@ PI2 = round(math.pi / 2, 12)
 # standard prefixes -----------------------------------------------------------------------------
 GL = [("declare", "g", "rydberg_global"), ("declare", "l", "raman_local", "q0")]  # different bases
 GR = [("declare", "g", "rydberg_global"), ("declare", "r", "rydberg_local", "q0")]  # same basis
+GR1 = [("declare", "g", "rydberg_global"), ("declare", "r", "rydberg_local", "q1")]  # local channel starts on the other atom
 GG = [("declare", "g", "rydberg_global"), ("declare", "h", "rydberg_global")]  # two globals, one basis
 GLD = GL + [("config_dmm", "m2", "dmm_0")]
 
@@ -70,6 +71,32 @@ def timing(g="g", l="l", basis_g="ground-rydberg", basis_l="digital", eom=True, 
             ("add", C52, g, "bad-protocol"),
         ]
     return A
+
+
+def fall_tail(g="g", l="l", rise=60, step=1):
+    """Pending fall time behind SEVERAL trailing idle slots: idle durations below / at / above the rise time `rise`
+    (fall times reach 2 x rise), then everything that consults the pending fall (align / delay at rest, retarget, phase
+    jump, EOM buffer).  `step` rounds the durations to the channel clock."""
+    def r(x):
+        return max(step, int(round(x / step)) * step)
+
+    return [
+        ("add", C52, g),
+        ("add", B100, g),
+        ("add", C52P, g),
+        ("delay", r(rise / 2), g),
+        ("delay", r(rise), g),
+        ("delay", r(rise + rise / 4), g),
+        ("delay", r(2 * rise + 8), g),
+        ("delay", 0, g, True),
+        ("add", C52, l),
+        ("delay", r(rise / 2), l),
+        ("delay", r(rise), l),
+        ("target", "q1", l),
+        ("align", (g, l), True),
+        ("align", (g, l), False),
+        ("enable_eom", g, 2.0, 0.0, 0.0, False),
+    ]
 
 
 def two_globals(a="g", b="h", basis="ground-rydberg"):
